@@ -65,7 +65,8 @@ class C02(object):
                    'derived-only exactness is demanded only with reduction on and only for variables that a '
                    'conservative independent graph analysis of the submitted text proves unreferenced']
     required_counters = ('equations_judged', 'exact_judged', 'lag_judged', 'hostile.loud', 'failpoint.recovered',
-                         'model_level.judged', 'rival_user_function.cases', 'solver_reused_for_variant.cases')
+                         'model_level.judged', 'rival_user_function.cases', 'solver_reused_for_variant.cases',
+                         'solver_reused_after_coarser_block.cases')
 
     def n_cases(self, tier):
         return 400 if tier == 'quick' else 40000
@@ -119,6 +120,9 @@ class C02(object):
                 cst['value'] = cst['value'] + 1.0
             for dd in var['decos']:
                 dd['expr'] = '2.0*(' + dd['expr'] + ')'
+            if spec['tol'] is not None:
+                # ... and that earlier job asked for a much coarser accuracy on its own Err_Tolerance line
+                var['tol'] = rng.choice([0.05, 0.01, 1e-3])
             earlier = G.render(var)
         userfn = None
         if rng.random() < 0.2:
@@ -192,6 +196,8 @@ class C02(object):
                 except Exception:
                     pass
                 counters['solver_reused_for_variant.cases'] = 1
+                if case['tol_via'] == 'line':
+                    counters['solver_reused_after_coarser_block.cases'] = 1
         elif kind in ('hostile', 'userfn'):
             solver.MaxIterations = case['cap']
             if case.get('tol') is not None:
